@@ -29,7 +29,7 @@ Import ListNotations.
 Require Import MayV.Rt.SchedModel MayV.Rt.SchedInv MayV.Rt.SchedPresP MayV.Rt.SchedThm.
 Require Import MayV.Rt.SchedLoopModel MayV.Rt.SchedLoopInv MayV.Rt.SchedLoopStruct MayV.Rt.SchedLoopSleep MayV.Rt.SchedLoopThm
   MayV.Rt.SchedLoopLive MayV.Rt.SchedLoopRounds MayV.Rt.SchedLoopBudget MayV.Rt.SchedLoopEnabled MayV.Rt.SchedLoopTie
-  MayV.Rt.SchedLoopRefute MayV.Rt.SchedLoopRuns.
+  MayV.Rt.SchedLoopRefute MayV.Rt.SchedLoopRuns MayV.Rt.SchedLoopAccept MayV.Rt.SchedLoopAcceptThm.
 
 (* ---------------------------------------------------------------- (c) the loop model is a restriction of SchedModel *)
 (* every action of the worker-loop model performs exactly one SchedModel action on the coroutine state, or none *)
@@ -324,6 +324,50 @@ Theorem C01_old_loop_local_queue_wait_bounded_by_poll_timeout_refuted :
   dl l 0 = Some (rnd (Npos T)) /\ now l = 0%N /\ tmo l 0 = Some (Npos T).
 Proof. exact local_queue_wait_not_bounded_by_poll_timeout. Qed.
 Print Assumptions C01_old_loop_local_queue_wait_bounded_by_poll_timeout_refuted.
+
+(* ---------------------------------------------------------------- (d) the tie to the code: lock-step trace acceptance *)
+(* Rt/SchedLoopAccept.v: `accept_ev` maps every recorded event of the real worker loop (the hooks of Selector::select /
+   wakeup, run_queued_tasks, collect_global, run_coroutine; the claiming CAS of the global mpsc queues, the committing store
+   of the local spmc queues, the wait_co slot of Park, NEXT_THREAD_ID.fetch_add) to one `lstep` of the model, a short fixed
+   sequence of them, or a checked observation, with the control-point and value checks listed there.  `m_init` is the
+   state before the scenario's cfg record; `acfg a = Some ct`: the run was configured with idle-poll timeout ct.
+   Every state the real runtime went through along an accepted trace is a reachable state of the model of the code as it
+   is (`Pcur ct`), so every theorem of this file applies to it. *)
+Theorem C01_accepted_loop_traces_are_model_runs :
+  forall tr a ct, accept_all m_init tr = Some a -> acfg a = Some ct -> exists n, LReach (Pcur ct) n (al a).
+Proof. exact accepted_traces_are_model_runs. Qed.
+Print Assumptions C01_accepted_loop_traces_are_model_runs.
+
+Theorem C01_accepted_loop_trace_prefixes_are_model_runs :
+  forall tr1 tr2 a ct, accept_all m_init (tr1 ++ tr2) = Some a -> acfg a = Some ct ->
+  exists a1, accept_all m_init tr1 = Some a1 /\ (forall ct1, acfg a1 = Some ct1 -> exists n, LReach (Pcur ct1) n (al a1)).
+Proof. exact accepted_prefixes_are_model_runs. Qed.
+Print Assumptions C01_accepted_loop_trace_prefixes_are_model_runs.
+
+(* hence, on every recorded run: a worker asleep in epoll_wait while a coroutine sits in its global queue has its eventfd
+   pending or a pusher between its push and its eventfd write *)
+Theorem C01_accepted_loop_traces_never_lose_a_wakeup :
+  forall tr a ct w, accept_all m_init tr = Some a -> acfg a = Some ct ->
+  wpc (al a) w = PSleep -> gq (base (al a)) w <> [] -> evfd (al a) w = true \/ pusher_in_flight (al a) w.
+Proof. exact accepted_traces_no_lost_wakeup. Qed.
+Print Assumptions C01_accepted_loop_traces_never_lose_a_wakeup.
+
+(* and a worker has run at most GLOBAL_INTERVAL coroutines since it last looked at its global queue *)
+Theorem C01_accepted_loop_traces_look_at_the_global_queue :
+  forall tr a ct w, accept_all m_init tr = Some a -> acfg a = Some ct -> since (al a) w <= 64.
+Proof. exact accepted_traces_interval. Qed.
+Print Assumptions C01_accepted_loop_traces_look_at_the_global_queue.
+
+(* non-vacuity: a recorded run of the real runtime (two workers; spawn, wake-up, collect, pop, steal, park, unpark, join)
+   is accepted; the same run with the eventfd write of its first global push moved in front of the push is rejected *)
+Example C01_recorded_loop_trace_is_accepted :
+  exists a, accept_all m_init ex_trace = Some a /\ acfg a = Some 10000000%N /\ nw (base (al a)) = 2 /\
+            2 <= nsel (al a) 0 + nsel (al a) 1 /\ 2 <= ncoll (al a) 0 + ncoll (al a) 1 /\ 1 <= length (dead (base (al a))).
+Proof. exact ex_trace_accepted. Qed.
+
+Example C01_recorded_loop_trace_with_wakeup_before_push_is_rejected :
+  accept_all m_init (swap_push_wake ex_trace) = None.
+Proof. exact ex_trace_wake_before_push_rejected. Qed.
 
 (* ---------------------------------------------------------------- non-vacuity: concrete runs (Rt/SchedLoopRuns.v) *)
 (* hypotheses of the no-lost-wake-up theorem: first epoll_wait (no timeout), global queue [1], the pusher at its wakeup call *)
